@@ -268,8 +268,29 @@ impl<Front: SocketHandler> Connection<Front> {
                 };
                 kawa.storage.available_space() == 0
             }
-            // H2 connections manage their own flow control via expect_read
-            Connection::H2(_) => false,
+            // An H2 connection parks itself (READABLE interest removed) when
+            // the DATA payload it is about to read does not fit the stream's
+            // buffer, and `try_resume_reading` wakes it up once the other side
+            // has drained some. A peer that hung up behind its last frames is
+            // not done while parked like this: the rest of what it sent is
+            // still in the kernel.
+            Connection::H2(c) => match c.expect_read {
+                Some((
+                    H2StreamId::Other {
+                        gid: global_stream_id,
+                        ..
+                    },
+                    amount,
+                )) => {
+                    let stream = &context.streams[global_stream_id];
+                    let kawa = match c.position {
+                        Position::Client(..) => &stream.back,
+                        Position::Server => &stream.front,
+                    };
+                    kawa.storage.available_space() < amount
+                }
+                _ => false,
+            },
         }
     }
 
